@@ -70,15 +70,25 @@ pub fn scenario(sub: u64) -> Option<Outcome> {
         }));
     }
     let total = |cs: &Vec<Arc<AtomicU64>>| cs.iter().map(|c| c.load(Ordering::SeqCst)).sum::<u64>();
-    std::thread::sleep(Duration::from_millis(140));
-    let a1 = total(&counters);
-    std::thread::sleep(Duration::from_millis(80));
-    let a2 = total(&counters);
-    std::thread::sleep(Duration::from_millis(80));
-    let a3 = total(&counters);
+    // wait until every publisher has stood still for 120 ms (not a fixed instant: how fast the
+    // publishers get to the marks depends on the machine), at most 4 s
+    let t0 = Instant::now();
+    let mut a3 = total(&counters);
+    let mut quiet_since = Instant::now();
+    let mut quiet = false;
+    while t0.elapsed() < Duration::from_secs(4) {
+        std::thread::sleep(Duration::from_millis(10));
+        let now = total(&counters);
+        if now != a3 {
+            a3 = now;
+            quiet_since = Instant::now();
+        } else if quiet_since.elapsed() >= Duration::from_millis(120) && t0.elapsed() >= Duration::from_millis(200) {
+            quiet = true;
+            break;
+        }
+    }
     // every publisher stood still although it had plenty left
-    let stable = a2 == a3 && a3 < per_pub * nch as u64;
-    let _ = a1;
+    let stable = quiet && a3 < per_pub * nch as u64;
     // a channel opened while throttled (its Open cannot leave before the transport reopens)
     let mut conn_opt = Some(conn);
     let opener = if open_while_throttled {
